@@ -73,7 +73,7 @@ Proof.
   intros Hi Hr Hg. cbn [fire]. unfold retransmit. rewrite Z.ltb_irrefl.
   match goal with |- ~ live _ (flush_cancels (stop_remote ?y _)) => set (s2 := y) end.
   assert (O1 : okreg (g_gid g0) (stop_remote s2 (m_remote m))).
-  { apply okreg_fold_stop; [|subst s2; fsimpl; lia]. apply in_map. apply filter_In. split; [exact Hi | lia]. }
+  { apply okreg_fold_stop; [|subst s2; unfold purge_backlog; fsimpl; lia]. apply in_map. apply filter_In. split; [exact Hi | lia]. }
   apply (q_ok (fun _ => True) _ _ _ (Q_flush _ _ _ O1)).
 Qed.
 
@@ -90,11 +90,9 @@ Lemma ends_on_shutdown s : s_down s = false -> s_regs (step s EShutdown) = [].
 Proof.
   intros Hd. cbn [step]. rewrite Hd.
   assert (E : s_regs (fold_left stop (map g_gid (s_regs s)) s) = []) by (apply fold_stop_all; intros g Hg; apply in_map; exact Hg).
-  match goal with |- s_regs (flush_cancels ?y) = [] => assert (E2 : s_regs y = []) by exact E; generalize dependent y end.
-  intros y _ E2. unfold flush_cancels. fsimpl.
   assert (G : forall l s0, s_regs (fold_left cancel_cb l s0) = s_regs s0).
   { induction l as [|c l IHl]; intros s0; cbn [fold_left]; [reflexivity|]. rewrite IHl. reflexivity. }
-  rewrite G. exact E2.
+  unfold flush_cancels. fsimpl. rewrite G. unfold cancel_timers. fsimpl. exact E.
 Qed.
 
 (* a notification that is unsuccessful or marked last, or a render that raises, ends the registration from inside the task *)
